@@ -13,7 +13,8 @@ for k in $(seq 1 $N); do
 done
 run_lane() {
   k=$1
-  awk -v n=$N -v k=$k 'NF && (NR-1)%n==k-1' $JOBS | while read WT PID M EXTRA; do
+  # all changes of one worktree go to the same lane (the change is applied inside the worktree)
+  awk -v n=$N -v k=$k 'NF { if (!($1 in lane)) { lane[$1] = c % n; c++ } if (lane[$1] == k-1) print }' $JOBS | while read WT PID M EXTRA; do
     ( cd /tmp/lane_$k/verif && SEED_NOREGEN=1 tools/seedcheck.sh $WT $PID $M $EXTRA 2>&1 | sed "s/^/[$PID-$M] /" )
     mkdir -p $HERE/seeded/$PID-$M && cp -r /tmp/lane_$k/verif/seeded/$PID-$M/. $HERE/seeded/$PID-$M/
   done
